@@ -167,7 +167,7 @@ func ruleC05Siblings(c *Ctx) {
 					switch y := rr.(type) {
 					case *ssa.Call:
 						if cal := y.Call.StaticCallee(); cal != nil {
-							sh.ctor = strings.TrimPrefix(cal.String(), modPath+"/")
+							sh.ctor = strings.TrimPrefix(refQ(cal), modPath+"/")
 						}
 					case *ssa.Convert:
 						if countKind(y.Type()) != "" {
